@@ -802,6 +802,25 @@ mod tests {
     }
 
     #[test]
+    fn test_field_named_like_a_modifier() {
+        let schema = json!({
+            "title": "Config",
+            "type": "object",
+            "properties": {
+                "public": { "type": "boolean" },
+                "readonly": { "type": "boolean" },
+                "internal": { "type": "boolean" }
+            },
+            "required": ["public", "readonly", "internal"]
+        });
+
+        let output = converter().convert(&schema).annotation_text;
+        assert!(output.contains("---@field [\"public\"] boolean\n"));
+        assert!(output.contains("---@field [\"readonly\"] boolean\n"));
+        assert!(output.contains("---@field internal boolean\n"));
+    }
+
+    #[test]
     fn test_description_above_field() {
         let schema = json!({
             "title": "Config",
